@@ -155,7 +155,7 @@ def tx_deser(tx_: bytes, include_raw: bool = False) -> typing.Tuple[dict, bytes]
     deserialized_tx["locktime"] = int.from_bytes(locktime, "little")
 
     tx_prime = tx_prime[4:]
-    tx_ = tx_.split(tx_prime)[0] if tx_prime else tx_
+    tx_ = tx_[: len(tx_) - len(tx_prime)]
 
     # re-serialize without witness for txid, and hash
     # TODO: Tx class to maybe calculate this more efficiently?
